@@ -726,4 +726,54 @@ theorem implicify_scan_sound (t : Rules) (z : Nat) (c : Int) (r : Bool) (others 
 /-- `[H]NC`: the explicit hydrogen of a methylamine nitrogen that also has an implicit one is removed and the count becomes 2 -/
 example : (tableOf 7).map (fun t => implicifyScan t 0 false [(1, 6)] 1 1) = some (some (1, 2)) := by decide +kernel
 
+/-- `explicify_hydrogens` conserves the hydrogens of the molecule: afterwards every implicit count is 0 and the number of
+    explicit hydrogen atoms has grown by exactly the former sum of implicit counts; it raises iff a count is unknown. -/
+theorem explicify_conserves (m m' : Mol) (h : explicify m = .ok m') :
+    totalHydrogens m' = totalHydrogens m ∧ (totalHydrogens m).isSome = true ∧
+    (∀ p ∈ m'.atoms, p.2.implH = some 0) := by
+  simp only [explicify] at h
+  cases ht : toAdd m.atoms with
+  | none => simp [ht] at h
+  | some l =>
+    obtain ⟨hs, hmem⟩ := toAdd_spec m.atoms l ht
+    have hall : ∀ l' nxt, (∀ p ∈ m.atoms, p.2.implH = some 0 ∨ p.1 ∈ l') →
+        ∀ p ∈ (addHydrogens l' nxt m).atoms, p.2.implH = some 0 := by
+      intro l' nxt hm p hp
+      cases (addHydrogens_spec l' nxt m).2 p hp with
+      | inl e => exact e
+      | inr e =>
+        obtain ⟨p0, hp0, ek, eh, hnot⟩ := e
+        cases hm p0 hp0 with
+        | inl e0 => rw [← eh]; exact e0
+        | inr e0 => exact absurd (ek ▸ e0) hnot
+    cases l with
+    | nil =>
+      simp only [ht, Except.ok.injEq] at h
+      subst h
+      refine ⟨rfl, by simp [totalHydrogens, hs], ?_⟩
+      intro p hp
+      cases hmem p hp with
+      | inl e => exact e
+      | inr e => simp at e
+    | cons n tl =>
+      simp only [ht, Except.ok.injEq] at h
+      subst h
+      have hz := hall (n :: tl) (m.ids.foldl max 0 + 1) hmem
+      have hx := (addHydrogens_spec (n :: tl) (m.ids.foldl max 0 + 1) m).1
+      refine ⟨?_, by simp [totalHydrogens, hs], hz⟩
+      have h0 : implicitTotal (addHydrogens (n :: tl) (m.ids.foldl max 0 + 1) m).atoms = some 0 := by
+        apply optSum_all_zero
+        intro x hxm
+        simp only [List.mem_map] at hxm
+        obtain ⟨p, hp, e⟩ := hxm
+        rw [← e]; exact hz p hp
+      simp only [totalHydrogens, h0, hs, Option.map_some]
+      simp only [explicitH] at hx
+      rw [hx]; congr 1; omega
+
+/-- methylamine `CN` (3 + 2 implicit hydrogens) -> 5 explicit hydrogen atoms, numbered from `max + 1`, all counts 0 -/
+example : ((explicify ⟨[(1, {z := 6, implH := some 3}), (2, {z := 7, implH := some 2})],
+      [(1, [(2, ⟨1, none⟩)]), (2, [(1, ⟨1, none⟩)])]⟩).toOption.map fun m => (m.ids, totalHydrogens m)) =
+    some ([1, 2, 3, 4, 5, 6, 7], some 5) := by decide +kernel
+
 end ChythonModel.Props.C04
